@@ -701,6 +701,11 @@ where
 
 impl<I: Integer, const N: usize> fmt::Display for Bvf<I, N> {
     fn fmt(&self, f: &mut fmt::Formatter<'_>) -> fmt::Result {
+        // A zero value (including empty vectors) has no digit to extract. Returning early also
+        // covers zero capacity types, in which the base below does not fit.
+        if self.is_zero() {
+            return f.pad_integral(true, "", "0");
+        }
         let base = Self::try_from(10u8).expect("Should fit in any Bvf type");
         let mut s = Vec::<char>::new();
         let mut quotient = *self;
